@@ -6,7 +6,9 @@ package proch
 import (
 	"context"
 	"fmt"
+	"runtime"
 	"runtime/debug"
+	"strings"
 	"time"
 
 	"github.com/alephium/wormhole-fork/node/pkg/common"
@@ -84,6 +86,7 @@ type Out struct {
 	Panic    interface{}
 	Stack    string
 	Loopback int // loopbacks captured in this step
+	Blocked  bool // StepFullQueue: the handler was parked in a channel send
 }
 
 func (w *World) NewNode(ownKey int, reqCap int) *Node {
@@ -125,6 +128,52 @@ func (w *World) NewNode(ownKey int, reqCap int) *Node {
 }
 
 func (n *Node) Close() { n.unsub() }
+
+// StepFullQueue performs a tick while the outbound re-observation request queue is full. The
+// handler runs on its own goroutine; if it has not returned while the harness is idle, its
+// goroutine state is inspected: parked in a channel send means the tick blocks on the full queue.
+func (n *Node) StepFullQueue(e interface{}) (out Out) {
+	filler := &gossipv1.ObservationRequest{ChainId: 0xfffe}
+	for len(n.ObsvReqC) < cap(n.ObsvReqC) {
+		n.ObsvReqC <- filler
+	}
+	done := make(chan struct{})
+	go func() {
+		defer close(done)
+		defer func() {
+			if p := recover(); p != nil {
+				out.Panic = p
+				out.Stack = string(debug.Stack())
+			}
+		}()
+		n.P.VerifDispatch(n.W.Ctx, e)
+	}()
+	select {
+	case <-done:
+	case <-time.After(3 * time.Second):
+		buf := make([]byte, 1<<20)
+		st := string(buf[:runtime.Stack(buf, true)])
+		if strings.Contains(st, "handleCleanup") && strings.Contains(st, "chan send") {
+			out.Blocked = true
+			// release the handler so that the worker can go on
+			for len(n.ObsvReqC) > 0 {
+				<-n.ObsvReqC
+			}
+			<-done
+			n.drain(&out)
+			return out
+		}
+		<-done
+	}
+	// the queue must still hold exactly the filler requests
+	for len(n.ObsvReqC) > 0 {
+		if r := <-n.ObsvReqC; r != filler {
+			out.Reqs = append(out.Reqs, r)
+		}
+	}
+	n.drain(&out)
+	return out
+}
 
 // Step performs one transition and collects its outputs. A panic is recovered and reported in Out.
 func (n *Node) Step(e interface{}) (out Out) {
